@@ -38,7 +38,7 @@ def cases(tier, seed):
         if not e["fit"] or e["kind"] == "ts":
             continue
         for v in e["variants"]:
-            for which in ((0,) if tier == "quick" else (0, 3)):
+            for which in ((0,) if tier == "quick" or name == "TransferTransformer" else (0, 3)):
                 yield {"cls": name, "variant": v, "m": m, "data": which}
 
 
